@@ -31,9 +31,9 @@ def run(spec):
     audit = {'obligations': 0, 'discharged': 0, 'problems': ['lake build failed'], 'theorems': [],
              'checker_cmd': f'cd {LEAN} && lake build'}
     if ok_build:
-        audit = lean_audit(prop, [])
+        audit = lean_audit(spec.get('props', prop), [])
         if tr == 'thorough':
-            for m, okc, out in leanchecker([f'PikaVerif.Props.{prop}']):
+            for m, okc, out in leanchecker([f'PikaVerif.Props.{spec.get("props", prop)}']):
                 if not okc:
                     audit['problems'].append(f'leanchecker {m}: {out}')
     proof_ok = ok_build and not audit['problems'] and audit['obligations'] == audit['discharged'] and audit['obligations'] > 0
